@@ -87,7 +87,7 @@ class Recorder:
         self.seen.append({"root": scope.get("root_path", ""), "path": scope.get("path", "")})
 
 
-def call_app(iface, app, root, path, host=None):
+def call_app(iface, app, root, path, host=None, omit_empty_script_name=False):
     """returns (status or None, final environ/scope)"""
     if iface == "wsgi":
         # what every real server also puts there: the server's own name must never stand in for the Host header
@@ -95,9 +95,11 @@ def call_app(iface, app, root, path, host=None):
                "wsgi.url_scheme": "http", "QUERY_STRING": "", "SERVER_PROTOCOL": "HTTP/1.0"}
         if host is not None:
             env["HTTP_HOST"] = host
+        if _items_of(root) == [] and omit_empty_script_name:
+            del env["SCRIPT_NAME"]  # PEP 3333: SCRIPT_NAME "may be an empty string" -- hand-built and some embedded environs leave it out
         calls = []
         list(app(env, lambda s, h, e=None: calls.append(s)))
-        return (calls[0] if calls else None), {"root": env["SCRIPT_NAME"], "path": env["PATH_INFO"]}
+        return (calls[0] if calls else None), {"root": env.get("SCRIPT_NAME", ""), "path": env["PATH_INFO"]}
     scope = {"type": "http", "method": "GET", "root_path": root, "path": path, "headers": [(b"user-agent", b"x")], "server": ("a.io", 80), "scheme": "http",
              "query_string": b""}
     if host is not None:
@@ -157,7 +159,7 @@ def job_mount(job) -> report.JobResult:
             call_app(iface, app, "", warm)
             a.seen.clear()
             b.seen.clear()
-        status, final = call_app(iface, app, root, path)
+        status, final = call_app(iface, app, root, path, omit_empty_script_name=bool(job.get("omit_script_name")))
         return status, final, a.seen, b.seen
 
     def on_path(e, r):
@@ -220,6 +222,7 @@ def job_mount(job) -> report.JobResult:
         wit = {"iface": iface, "nested": nested, "prefix1": conc(p1, m), "prefix2": conc(p2, m), "root": conc(root, m), "path": conc(path, m)}
         if lw is not None:
             wit["earlier_request_path"] = conc(warm, m)
+        wit["omit_script_name"] = bool(job.get("omit_script_name"))
         cp = concrete_mount(wit)
         if klass is not None:
             res.violation(f"C09/{iface}/{'nested' if nested else 'table'}/{klass.split(':')[0]}", wit, f"{klass} {detail}; concrete: {cp}", (cp is not None) or twin)
@@ -256,7 +259,7 @@ def concrete_mount(w) -> Optional[str]:
             call_app(iface, app, "", w["earlier_request_path"])
             a.seen.clear()
             b.seen.clear()
-        status, final = call_app(iface, app, root, path)
+        status, final = call_app(iface, app, root, path, omit_empty_script_name=bool(w.get("omit_script_name")))
     except Exception as ex:  # noqa: BLE001
         return f"exception {type(ex).__name__}: {ex}"
     if w["nested"]:
@@ -379,6 +382,10 @@ def jobs(tier: str):
                     out.append(dict(name=f"mount/{iface}/p{l1}q{l2}r{lr}x{lp}", kind="mount", iface=iface, l1=l1, l2=l2, lr=lr, lp=lp, weight=2 ** (l1 + l2 + lp)))
                     if lp >= 2 and (tier == "thorough" or lr >= 1):
                         out.append(dict(name=f"nested/{iface}/p{l1}q{l2}r{lr}x{lp}", kind="mount", iface=iface, l1=l1, l2=l2, lr=lr, lp=lp, nested=True, weight=2 ** (l1 + l2 + lp)))
+        if iface == "wsgi":
+            for l1, l2, lp in ((2, 0, 2), (0, 2, 3), (2, 2, 3)):
+                out.append(dict(name=f"mount/wsgi/no-SCRIPT_NAME-key/p{l1}q{l2}x{lp}", kind="mount", iface="wsgi", l1=l1, l2=l2, lr=0, lp=lp, omit_script_name=True,
+                                weight=2 ** (l1 + l2 + lp)))
         for lw in (2, 3):
             # (4, 2, .., 4): the shortest table in which the second prefix is a segment prefix of the first ('/a/b' before '/a')
             for l1, l2, lp in ((2, 2, 2), (2, 1, 3), (4, 2, 4), (2, 4, 4)):
